@@ -498,6 +498,7 @@ class Tracer:
         self.nsteps = 0
         self.n_restart_batches = 0
         self.submitted_domain_errors = []
+        self.eval_var_changes = []     # evaluate_all must not change the (decoded) variables of what it is given
 
     def sid(self, s):
         k = id(s)
@@ -541,8 +542,14 @@ class Tracer:
                     err = encoded_in_domain(alg.problem.types, list(s.variables))
                     if err:
                         tracer.submitted_domain_errors.append((tracer.nsteps, len(tracer.cur_batches), tracer.sid(s), err))
+            types = alg.problem.types
+            dec_before = [[snap_value(types[i].decode(v)) for i, v in enumerate(s.variables)] for s in sols]
             r = tracer._orig_eval(alg, solutions)
             after = [tracer.snap(s) for s in sols]
+            for s, d0 in zip(sols, dec_before):
+                d1 = [snap_value(types[i].decode(v)) for i, v in enumerate(s.variables)]
+                if d1 != d0:
+                    tracer.eval_var_changes.append((tracer.nsteps, len(tracer.cur_batches), tracer.sid(s), d0, d1))
             tracer.cur_batches.append((before, prov, after))
             for s in sols:
                 tracer.pool_ids.add(id(s))
@@ -741,6 +748,10 @@ def run_config(cfg):
         if err and len(out["c07_fail"]) < 5:
             out["c07_fail"].append({"call": k, "args": repr(args), "what": err})
     if tracer:
+        for (st, bn, sid, d0, d1) in tracer.eval_var_changes[:3]:
+            out["c01_fail"].append({"step": st, "where": "evaluate_all batch %d" % bn, "sid": sid, "key": "evaluate-all-changed-variables",
+                                    "what": "evaluate_all changed the decision variables of a submitted solution from %r to %r "
+                                            "(results paired with the wrong solution)" % (d0, d1)})
         for (st, bn, sid, err) in tracer.submitted_domain_errors[:5]:
             out["c07_fail"].append({"step": st, "batch": bn, "sid": sid, "what": "submitted to evaluate_all: " + err})
         out["trace"] = {"table": tracer.table, "init": tracer.init, "steps": tracer.steps}
